@@ -58,6 +58,7 @@ impl Method for StDev {
 		&&& out@ >= 0real
 	}
 //@extract src/methods/st_dev.rs impl[Method for StDev]::new
+	ensures (r is Ok) == (length != 0 && length != 1 && length != PeriodType::MAX),
 //@hint before match length
 	proof {
 		if length > 1 {
